@@ -17,11 +17,11 @@ import (
 type dbOp struct {
 	del bool
 	key string
-	val []byte
+	row dbRow
 }
 
 type DBState struct {
-	Table   map[string][]byte
+	Table   map[string]dbRow
 	Created bool
 	InUse   int // connections held by open transactions / row sets
 	MaxOpen int // 0 = unlimited
@@ -37,7 +37,9 @@ type txState struct {
 type rowState struct {
 	err   error
 	found bool
-	val   []byte
+	val   []byte // nil = NULL
+	isKey bool   // the selected column is logID (a text value)
+	key   string
 }
 
 type rowsState struct {
@@ -62,24 +64,22 @@ var (
 	errLocked = errors.New("model: database is locked")
 )
 
-// SQL statement kinds recognised by SQLKind.
+// Column ids of table chkpts as reported by SQLParse.
 const (
-	SQLUnknown = iota
-	SQLCreate
-	SQLSelectOne
-	SQLSelectIDs
-	SQLInsertOrReplace
-	SQLInsert
-	SQLUpdate
-	SQLDelete
-	SQLInsertOrIgnore
-	SQLDeleteAll
+	colLogID = 1
+	colChkpt = 2
+	colRange = 3
 )
+
+// dbRow is one row; a nil Chkpt is SQL NULL.
+type dbRow struct {
+	Chkpt []byte
+}
 
 // NewDB returns a fresh database handle with an empty store.
 func NewDB(maxOpen int) *sql.DB {
 	db := &sql.DB{}
-	dbs[db] = &DBState{Table: map[string][]byte{}, MaxOpen: maxOpen}
+	dbs[db] = &DBState{Table: map[string]dbRow{}, MaxOpen: maxOpen}
 	return db
 }
 
@@ -159,13 +159,13 @@ func DBBegin(db *sql.DB) (*sql.Tx, error) {
 	return tx, nil
 }
 
-func lookupIn(s *DBState, staged []dbOp, key string) ([]byte, bool) {
+func lookupIn(s *DBState, staged []dbOp, key string) (dbRow, bool) {
 	for i := len(staged) - 1; i >= 0; i-- {
 		if staged[i].key == key {
 			if staged[i].del {
-				return nil, false
+				return dbRow{}, false
 			}
-			return staged[i].val, true
+			return staged[i].row, true
 		}
 	}
 	v, ok := s.Table[key]
@@ -180,23 +180,31 @@ func queryRow(s *DBState, staged []dbOp, query string, args []any) *sql.Row {
 		st.err = errDB
 		return r
 	}
-	switch SQLKind(query) {
-	case SQLSelectOne:
-		if len(args) != 1 {
-			st.err = errDB
-			return r
-		}
-		key, ok := args[0].(string)
-		if !ok {
-			Unsupported("SELECT with a non-string key")
-		}
-		if !s.Created {
-			st.err = errDB // no such table
-			return r
-		}
-		st.val, st.found = lookupIn(s, staged, key)
-	default:
+	op, _, cols, whereKey := SQLParse(query)
+	if op != 2 || !whereKey || len(cols) != 1 {
 		Unsupported("QueryRow with an unrecognised SQL statement")
+	}
+	if len(args) != 1 {
+		st.err = errDB
+		return r
+	}
+	key, ok := args[0].(string)
+	if !ok {
+		Unsupported("SELECT with a non-string key")
+	}
+	if !s.Created {
+		st.err = errDB // no such table
+		return r
+	}
+	row, found := lookupIn(s, staged, key)
+	st.found = found
+	switch cols[0] {
+	case colChkpt:
+		st.val = row.Chkpt
+	case colLogID:
+		st.isKey, st.key = true, key
+	default:
+		st.val = nil // the range column is never written: NULL
 	}
 	return r
 }
@@ -246,9 +254,19 @@ func RowScan(r *sql.Row, dest ...any) error {
 	}
 	switch d := dest[0].(type) {
 	case *[]byte:
-		*d = st.val
+		if st.isKey {
+			*d = []byte(st.key)
+		} else {
+			*d = st.val // NULL scans into a nil slice
+		}
 	case *string:
-		*d = string(st.val)
+		if st.isKey {
+			*d = st.key
+		} else if st.val == nil {
+			return errDB // converting NULL to string is unsupported
+		} else {
+			*d = string(st.val)
+		}
 	default:
 		Unsupported("Row.Scan into an unsupported destination type")
 	}
@@ -256,61 +274,97 @@ func RowScan(r *sql.Row, dest ...any) error {
 }
 
 func execStmt(s *DBState, staged *[]dbOp, query string, args []any) error {
-	switch SQLKind(query) {
-	case SQLCreate:
+	op, conflict, cols, whereKey := SQLParse(query)
+	var cur []dbOp
+	if staged != nil {
+		cur = *staged
+	}
+	put := func(key string, row dbRow) {
+		if staged != nil {
+			*staged = append(*staged, dbOp{key: key, row: row})
+		} else {
+			s.Table[key] = row
+		}
+	}
+	switch op {
+	case 1: // CREATE TABLE IF NOT EXISTS
 		if staged != nil {
 			Unsupported("CREATE TABLE inside a transaction")
 		}
 		s.Created = true
 		return nil
-	case SQLInsertOrReplace, SQLInsert, SQLInsertOrIgnore, SQLUpdate:
-		if !s.Created {
-			return errDB
-		}
-		if len(args) != 2 {
+	case 3: // INSERT [OR REPLACE | OR IGNORE] INTO chkpts (cols) VALUES (?...)
+		if !s.Created || len(args) != len(cols) {
 			return errDB
 		}
 		var key string
-		var val []byte
-		var ok1, ok2 bool
-		if SQLKind(query) == SQLUpdate {
-			val, ok1 = args[0].([]byte)
-			key, ok2 = args[1].(string)
-		} else {
-			key, ok1 = args[0].(string)
-			val, ok2 = args[1].([]byte)
+		haveKey := false
+		row := dbRow{}
+		for i, c := range cols {
+			switch c {
+			case colLogID:
+				k, ok := args[i].(string)
+				if !ok {
+					Unsupported("INSERT with a non-string logID")
+				}
+				key, haveKey = k, true
+			case colChkpt:
+				v, ok := args[i].([]byte)
+				if !ok {
+					Unsupported("INSERT with a non-[]byte chkpt")
+				}
+				row.Chkpt = v
+			}
 		}
-		if !ok1 || !ok2 {
-			Unsupported("write statement with unexpected argument types")
-		}
-		var cur []dbOp
-		if staged != nil {
-			cur = *staged
+		if !haveKey {
+			Unsupported("INSERT without a logID (NULL primary key)")
 		}
 		_, exists := lookupIn(s, cur, key)
-		switch SQLKind(query) {
-		case SQLInsert:
-			if exists {
+		if exists {
+			switch conflict {
+			case 0:
 				return errDB // UNIQUE constraint failed
-			}
-		case SQLInsertOrIgnore:
-			if exists {
-				return nil
-			}
-		case SQLUpdate:
-			if !exists {
-				return nil
+			case 2:
+				return nil // OR IGNORE
 			}
 		}
-		if staged != nil {
-			*staged = append(*staged, dbOp{key: key, val: val})
-		} else {
-			s.Table[key] = val
-		}
+		put(key, row)
 		return nil
-	case SQLDelete:
-		if !s.Created || len(args) != 1 {
+	case 4: // UPDATE chkpts SET col = ? ... WHERE logID = ?
+		if !s.Created || !whereKey || len(args) != len(cols)+1 {
+			if !whereKey {
+				Unsupported("UPDATE without WHERE logID = ?")
+			}
 			return errDB
+		}
+		key, ok := args[len(cols)].(string)
+		if !ok {
+			Unsupported("UPDATE with a non-string key")
+		}
+		row, exists := lookupIn(s, cur, key)
+		if !exists {
+			return nil // no row matches: nothing happens, no error
+		}
+		for i, c := range cols {
+			switch c {
+			case colChkpt:
+				v, ok := args[i].([]byte)
+				if !ok {
+					Unsupported("UPDATE with a non-[]byte chkpt")
+				}
+				row.Chkpt = v
+			case colLogID:
+				Unsupported("UPDATE of the primary key")
+			}
+		}
+		put(key, row)
+		return nil
+	case 5: // DELETE FROM chkpts WHERE logID = ?
+		if !s.Created {
+			return errDB
+		}
+		if !whereKey || len(args) != 1 {
+			Unsupported("DELETE without WHERE logID = ?")
 		}
 		key, ok := args[0].(string)
 		if !ok {
@@ -383,7 +437,7 @@ func TxCommit(tx *sql.Tx) error {
 		if op.del {
 			delete(s.Table, op.key)
 		} else {
-			s.Table[op.key] = op.val
+			s.Table[op.key] = op.row
 		}
 	}
 	t.staged = nil
@@ -423,7 +477,7 @@ func DBQuery(db *sql.DB, query string, args ...any) (*sql.Rows, error) {
 		boundary()
 		return nil, errDB
 	}
-	if SQLKind(query) != SQLSelectIDs {
+	if op, _, cols, whereKey := SQLParse(query); op != 2 || whereKey || len(cols) != 1 || cols[0] != colLogID {
 		Unsupported("Query with an unrecognised SQL statement")
 	}
 	if !s.Created {
